@@ -30,7 +30,8 @@ type C11Content struct {
 	Flags  []uint32            `json:"flags,omitempty"` // client flags set
 	Code   BS                  `json:"code,omitempty"`
 	Lang   string              `json:"lang,omitempty"`
-	Frames []map[string]string `json:"frames"` // cache scopes below the top one (one per path element)
+	Idx    uint16              `json:"idx,omitempty"` // lateral page index
+	Frames []map[string]string `json:"frames"`        // cache scopes below the top one (one per path element)
 }
 
 type C11PCycle struct {
@@ -54,6 +55,9 @@ type C11Persister struct {
 	// DbSession: sessions are addressed through Persister.WithSession(id) and one fixed key
 	// (the session id lives in the store handle) instead of through the key
 	DbSession bool `json:"db_session,omitempty"`
+	// AsIs (without Flush): the shared persister keeps its state and memory objects from one
+	// session to the next — each Load decodes over what the previous session left in them
+	AsIs bool `json:"as_is,omitempty"`
 }
 
 var c11Syms = []string{"name", "pin", "balance", "iban", "x"}
@@ -84,6 +88,9 @@ func genC11Content(t *rapid.T) C11Content {
 	if chancePct(t, 40, "flag") {
 		c.Flags = []uint32{8 + uint32(uniformN(t, 8, "flagv"))}
 	}
+	if chancePct(t, 40, "idx") {
+		c.Idx = uint16(1 + uniformN(t, 3, "idxv"))
+	}
 	if chancePct(t, 30, "lang") {
 		c.Lang = []string{"nor", "swa"}[uniformN(t, 2, "langv")]
 	}
@@ -94,7 +101,8 @@ func genC11Content(t *rapid.T) C11Content {
 }
 
 func genC11Persister(t *rapid.T) C11Persister {
-	c := C11Persister{Backend: []string{"mem", "fs"}[uniformN(t, 2, "backend")], Flush: chancePct(t, 85, "flush"), DbSession: chancePct(t, 35, "dbsession")}
+	c := C11Persister{Backend: []string{"mem", "fs"}[uniformN(t, 2, "backend")], Flush: chancePct(t, 65, "flush"), DbSession: chancePct(t, 35, "dbsession")}
+	c.AsIs = !c.Flush && chancePct(t, 60, "asis")
 	n := 2 + uniformN(t, 3, "nsessions")
 	c.Sessions = []string{"alice", "bob", "carol", "dave"}[:n]
 	for i := 0; i < n; i++ {
@@ -136,6 +144,7 @@ func (c C11Content) build() (*state.State, *cache.Cache) {
 		st.SetFlag(f)
 	}
 	st.SetCode(append([]byte{}, c.Code...))
+	st.SizeIdx = c.Idx
 	if c.Lang != "" {
 		st.SetLanguage(c.Lang)
 	}
@@ -260,7 +269,7 @@ func checkC11Persister(c C11Persister) (o Outcome) {
 			o.Viol = viol("shared-save-fails", "cycle %d: Save(%q) on the shared persister fails: %v", k, id, serr)
 			return
 		}
-		if !c.Flush {
+		if !c.Flush && !c.AsIs {
 			// without WithFlush the caller hands the persister fresh objects for the next session
 			shared = shared.WithContent(state.NewState(c11FlagCount), cache.NewCache())
 		}
@@ -286,6 +295,8 @@ func checkC11Persister(c C11Persister) (o Outcome) {
 	o.NonTrivial = foreign
 	if c.Flush {
 		o.class("with-flush")
+	} else if c.AsIs {
+		o.class("same-objects-for-every-session")
 	} else {
 		o.class("fresh-objects-per-session")
 	}
